@@ -4,6 +4,9 @@
                                              identical across (a) one process, ascending order,
                                              PYTHONHASHSEED=0 and (b) four fresh processes,
                                              descending order, PYTHONHASHSEED=12345
+    check selftest stats [TRIALS]            calibration of the statistical oracles (C15 Q4, C17 N9)
+                                             on synthetic samples: silent on the stated
+                                             distribution, firing on plausible defects
     (sensitivity: see /verif/mutants/mutants.py)
 """
 
@@ -39,7 +42,67 @@ def _spawn(prop: str, seed: int, idxs: list[int], hashseed: str) -> subprocess.P
          ",".join(map(str, idxs))], stdout=subprocess.PIPE, text=True, env=env, cwd=VERIF)
 
 
+def stats_selftest(trials: int = 400) -> int:
+    """Calibration of the statistical oracles on synthetic data (no cirkit involved): they must
+    stay silent on samples of the stated distribution and fire on plausible defects."""
+    import numpy as np
+
+    from .world_c import Exact, frequency_tests
+
+    rs = np.random.RandomState(12345)
+    bad = 0
+    # --- C15 / Q4 -----------------------------------------------------------------------
+    D, k = 3, 3
+    from .oracles import all_states
+
+    states = all_states(D, k)
+    false_alarms = misses = 0
+    for t in range(trials):
+        p = rs.dirichlet(np.full(len(states), 0.7))
+        ex = Exact(states, p, "discrete", k)
+        n = int(rs.choice([1000, 2000, 5000]))
+        idx = rs.choice(len(states), size=n, p=p)
+        _, msg = frequency_tests(states[idx], ex, n)
+        false_alarms += msg is not None
+        # defect: two variable columns swapped (mis-attributed columns)
+        rows = states[idx][:, [1, 0, 2]]
+        _, msg = frequency_tests(rows, ex, n)
+        sym = np.abs(p.reshape(k, k, k) - p.reshape(k, k, k).transpose(1, 0, 2)).max()
+        if msg is None and sym > 0.05:
+            misses += 1
+    print(f"stats C15/Q4: {trials} true samples -> {false_alarms} alarms; {trials} column swaps -> {misses} misses")
+    bad += false_alarms + misses
+    # --- C17 / N9 -----------------------------------------------------------------------
+    from .checks_c17 import C17Checker
+    from .kernel import Trace, Violation
+
+    class _W:
+        def __init__(self) -> None:
+            self.tr = Trace()
+
+    def fires(kind: str, z: "np.ndarray") -> bool:
+        c = C17Checker(_W())
+        c.pool_z[kind].append(z)
+        try:
+            c.final()
+        except Violation:
+            return True
+        return False
+
+    fa = sum(fires("normal", rs.normal(size=400)) for _ in range(trials))
+    fa += sum(fires("uniform", rs.uniform(size=400)) for _ in range(trials))
+    ms = sum(not fires("normal", 1.5 * rs.normal(size=2000)) for _ in range(50))
+    ms += sum(not fires("normal", 0.3 + rs.normal(size=2000)) for _ in range(50))
+    ms += sum(not fires("uniform", rs.uniform(size=2000) ** 1.5) for _ in range(50))
+    ms += sum(not fires("normal", rs.uniform(-1.732, 1.732, size=12000)) for _ in range(50))
+    print(f"stats C17/N9: {2 * trials} true pools -> {fa} alarms; 200 defective pools -> {ms} misses")
+    bad += fa + ms
+    return 1 if bad else 0
+
+
 def main(argv: list[str]) -> int:
+    if argv and argv[0] == "stats":
+        return stats_selftest(int(argv[1]) if len(argv) > 1 else 400)
     if argv and argv[0] == "_digests":
         print(json.dumps(_digests(argv[1], int(argv[2]), [int(x) for x in argv[3].split(",")])))
         return 0
